@@ -179,6 +179,50 @@ def finite_differences(ctx: Ctx) -> None:
                                           {"criterion": cname, "feats": feats, "cost": cost, "module_mode": mode, "H": H, "relative_error": worst})
 
 
+def two_runs_one_graph(ctx: Ctx) -> None:
+    """The loss of TWO evaluations of the same hedger (a call and a put book; equal batch shapes) back-propagated together,
+    for models whose last operation keeps its output for the backward pass: gradient vs central differences."""
+    from pfhedge.instruments import EuropeanOption, HestonStock
+    from pfhedge.nn import EntropicRiskMeasure, ExpectedShortfall, Hedger
+    torch.manual_seed(ctx.seed + 33)
+    for cname, mk in (("EntropicRiskMeasure", lambda: EntropicRiskMeasure(1.5)), ("ExpectedShortfall", lambda: ExpectedShortfall(0.3))):
+        for feats in (["log_moneyness", "time_to_maturity", "prev_hedge"], ["log_moneyness", "time_to_maturity", "volatility"]):
+            for last in (torch.nn.Tanh, torch.nn.Sigmoid, torch.nn.ReLU):
+                books = []
+                for call in (True, False):
+                    stock = HestonStock(cost=1e-2, dt=1 / 20, dtype=DT)
+                    d = EuropeanOption(stock, call=call, maturity=6 / 20)
+                    d.simulate(n_paths=16)
+                    books.append(d)
+                model = torch.nn.Sequential(torch.nn.Linear(len(feats), 5, dtype=DT), torch.nn.Tanh(), torch.nn.Linear(5, 1, dtype=DT), last())
+                hedger = Hedger(model, list(feats), criterion=mk())
+
+                def loss_fn() -> torch.Tensor:
+                    return sum(hedger.criterion(hedger.compute_portfolio(d), d.payoff()) for d in books)
+                params = list(hedger.parameters())
+                try:
+                    g = torch.autograd.grad(loss_fn(), params, allow_unused=True)
+                except Exception as e:
+                    ctx.violation(f"fd:two-runs:raises:{cname}", f"back-propagating the sum of two evaluations raised {type(e).__name__}", {"feats": feats, "last": last.__name__, "error": repr(e)[:200]})
+                    continue
+                ctx.count(("two-runs", cname, tuple(feats), last.__name__), n=1)
+                worst = 0.0
+                with torch.no_grad():
+                    for p, gp in zip(params, g):
+                        flat = p.view(-1)
+                        for i in range(0, flat.numel(), max(1, flat.numel() // 4)):
+                            old = flat[i].item()
+                            flat[i] = old + 1e-6; up = loss_fn().item()
+                            flat[i] = old - 1e-6; dn = loss_fn().item()
+                            flat[i] = old
+                            fd = (up - dn) / 2e-6
+                            ad = 0.0 if gp is None else gp.view(-1)[i].item()
+                            worst = max(worst, abs(fd - ad) / (1e-4 + abs(fd) + abs(ad)))
+                if worst > 2e-4:
+                    ctx.violation(f"fd:two-runs:{cname}:{'stepwise' if 'prev_hedge' in feats else 'batched'}", "the gradient of a loss summed over two evaluations of the same hedger differs from central finite differences",
+                                  {"criterion": cname, "feats": feats, "last_operation": last.__name__, "relative_error": worst})
+
+
 def check(ctx: Ctx) -> None:
     warnings.filterwarnings("ignore")
     res = ctx.tlc("MC_Grad", "MC_Grad_q_t3.cfg" if ctx.tier == "quick" else "MC_Grad_t_t4.cfg", workers=8, coverage=False)
@@ -191,6 +235,7 @@ def check(ctx: Ctx) -> None:
     replay(ctx, recs)
     grad_mode_protocol(ctx, recs[:: max(1, len(recs) // 24)])
     finite_differences(ctx)
+    two_runs_one_graph(ctx)
     for r in recs:
         ctx.distinct.add(json.dumps([r["p1"], r["p2"], r["cfg"], r["crit"]]))
     ctx.sample(recs[0]); ctx.sample(recs[len(recs) // 2])
